@@ -22,7 +22,9 @@ import (
 // quiescence instead of Sync+sleep).
 
 var c15Ops = []string{"dispatch a", "dispatch b", "delete oldest", "delete newest", "delete unknown",
-	"join mock all", "join mock a", "join v1 all", "join v1 a", "join v2 all", "join v2 a", "join v2lazy all", "leave 0", "leave 1"}
+	"join mock all", "join mock a", "join v1 all", "join v1 a", "join v2 all", "join v2 a", "join v2lazy all", "leave 0", "leave 1",
+	// a burst that fills the queue (100 entries) of a monitor that is not reading, and that monitor catching up
+	"dispatch100 a", "drainlazy"}
 
 type c15Case struct {
 	History int      `json:"history"`
@@ -62,7 +64,24 @@ type hubListener struct {
 	want         []string // per the hub model
 	left         bool
 	lazy         bool // its consumer does not read: events stay buffered (at most 100)
+	buffered     int  // lazy: events offered since the consumer last caught up
+	dropped      bool // lazy: an event was offered while 100 were buffered - the hub drops such a monitor for good
 	pendAtLeave  int
+}
+
+// offer records that the hub will offer ev to l, according to the model.
+func (l *hubListener) offer(ev string) {
+	if l.left || l.dropped {
+		return
+	}
+	if l.lazy {
+		if l.buffered == 100 {
+			l.dropped = true
+			return
+		}
+		l.buffered++
+	}
+	l.want = append(l.want, ev)
 }
 
 func (l *hubListener) drain() {
@@ -124,15 +143,29 @@ func c15Exec(c *fw.Ctx, hlen int, seq []int) (key string, extend, nontrivial boo
 		for _, oi := range seq {
 			f := strings.Fields(c15Ops[oi])
 			switch f[0] {
-			case "dispatch":
-				nid[f[1]]++
-				id := fmt.Sprintf("%d", nid[f[1]])
-				hub.Dispatch(event.MessageMetadata{Mailbox: f[1], ID: id, Subject: "s" + id})
-				mo.stored = append(mo.stored, f[1]+"/"+id)
+			case "dispatch", "dispatch100":
+				times := 1
+				if f[0] == "dispatch100" {
+					times = 100
+				}
+				for ; times > 0; times-- {
+					nid[f[1]]++
+					id := fmt.Sprintf("%d", nid[f[1]])
+					hub.Dispatch(event.MessageMetadata{Mailbox: f[1], ID: id, Subject: "s" + id})
+					mo.stored = append(mo.stored, f[1]+"/"+id)
+					for _, l := range ls {
+						// history length 0 is documented to disable the monitor: nothing is relayed
+						if match(l, f[1]) && hlen > 0 {
+							l.offer("stored:" + f[1] + "/" + id)
+						}
+					}
+				}
+			case "drainlazy":
+				sys.BubbleWait()
 				for _, l := range ls {
-					// history length 0 is documented to disable the monitor: nothing is relayed
-					if !l.left && match(l, f[1]) && hlen > 0 {
-						l.want = append(l.want, "stored:"+f[1]+"/"+id)
+					if l.lazy && !l.left {
+						l.drain()
+						l.buffered = 0
 					}
 				}
 				nontrivial = true
@@ -150,8 +183,8 @@ func c15Exec(c *fw.Ctx, hlen int, seq []int) (key string, extend, nontrivial boo
 				hub.Delete(mb, id)
 				mo.deleted[mb+"/"+id] = true
 				for _, l := range ls {
-					if !l.left && match(l, mb) && l.kind != "v1" && hlen > 0 { // the v1 socket API has no delete events
-						l.want = append(l.want, "deleted:"+mb+"/"+id)
+					if match(l, mb) && l.kind != "v1" && hlen > 0 { // the v1 socket API has no delete events
+						l.offer("deleted:" + mb + "/" + id)
 					}
 				}
 			case "join":
@@ -159,11 +192,14 @@ func c15Exec(c *fw.Ctx, hlen int, seq []int) (key string, extend, nontrivial boo
 				if f[2] == "a" {
 					l.filter = "a"
 				}
+				if f[1] == "v2lazy" {
+					l.lazy = true
+				}
 				// the retained history is replayed first
 				for _, s := range mo.history() {
 					p := strings.SplitN(s, "/", 2)
 					if match(l, p[0]) {
-						l.want = append(l.want, "stored:"+s)
+						l.offer("stored:" + s)
 					}
 				}
 				switch f[1] {
@@ -237,6 +273,19 @@ func c15Exec(c *fw.Ctx, hlen int, seq []int) (key string, extend, nontrivial boo
 			if l.lazy {
 				l.drain()
 			}
+			if l.dropped {
+				// a monitor the hub had to drop: what it did receive is a gap-free prefix of what was
+				// offered before the drop, and nothing after it
+				ok := len(l.got) <= len(l.want)
+				for j := 0; ok && j < len(l.got); j++ {
+					ok = l.got[j] == l.want[j]
+				}
+				if !ok {
+					c.Violate("seq|dropped-listener-sequence|"+l.kind, fmt.Sprintf("listener %d (%s) did not read while more than 100 events were offered to it; the hub drops such a monitor, which may then have received a prefix of %d events at most - it received %d: …%v\nops: %s", i, l.kind, len(l.want), len(l.got), l.got[max(0, len(l.got)-4):], strings.Join(cas.Ops, "; ")), cas)
+					extend = false
+				}
+				continue
+			}
 			if strings.Join(l.got, " ") != strings.Join(l.want, " ") {
 				c.Violate("seq|sequence-differs|"+l.kind, fmt.Sprintf("listener %d (%s, filter %q) received %v, the hub model says %v\nops: %s", i, l.kind, l.filter, l.got, l.want, strings.Join(cas.Ops, "; ")), cas)
 				extend = false
@@ -244,7 +293,7 @@ func c15Exec(c *fw.Ctx, hlen int, seq []int) (key string, extend, nontrivial boo
 		}
 		var lk []string
 		for _, l := range ls {
-			lk = append(lk, fmt.Sprintf("%s/%s/%v", l.kind, l.filter, l.left))
+			lk = append(lk, fmt.Sprintf("%s/%s/%v/%d/%v", l.kind, l.filter, l.left, l.buffered, l.dropped))
 		}
 		key = fmt.Sprintf("%v|%v|%v", mo.history(), len(mo.stored), lk)
 		for _, l := range ls {
